@@ -21,6 +21,7 @@ type Subscription[T any] struct {
 	mu    sync.Mutex
 	topic *Topic[T]
 	ch    <-chan T
+	done  chan struct{} // closed by Close to release a publisher blocked on us
 }
 
 // Channel returns the chan that can be used to receive values from this
@@ -59,6 +60,11 @@ func (s *Subscription[T]) Close() {
 		return // already closed
 	}
 
+	if s.done != nil {
+		// A publisher that is blocked sending to us holds the topic lock we
+		// need in unsubscribeID: tell it to stop waiting for this subscriber.
+		close(s.done)
+	}
 	s.topic.unsubscribeID(s.id)
 	s.ch = nil
 	s.topic = nil
